@@ -769,6 +769,15 @@ class AttemptScript:
             # the peer is gone: nothing will ever be answered on this connection
             st.server.close()
             return make_exc(o["err"])
+        if o is not None and o["k"] == "early" and k == o.get("at", 1) and k > 0 and st.server.tunnel_pending is False:
+            # the server answers after the request head, while the client is still writing the body, and closes: the
+            # client's write fails, the answer is nevertheless there to be read
+            self._consume("early-response", st.index)
+            self.attempt_sends[st.index] = 0
+            st.server.inbuf.clear()
+            st.server.write(wire.build_response(int(o.get("status", 503)), "Early", [tuple(h) for h in o.get("headers", [])], b"early", keepalive=False))
+            st.server.close()
+            return make_exc(o.get("err", "EPIPE"))
         return None
 
     def on_connect(self, net: Net, sc: ServerConn, req: wire.Request) -> typing.Any:
@@ -793,6 +802,10 @@ class AttemptScript:
         o = self._consume("request", sc.index, req)
         st = sc.st
         k = o["k"]
+        if k == "early":
+            # the whole request arrived before the scripted point: an ordinary (closing) answer with that status
+            o = dict(o, k="resp", body="early", keepalive=False)
+            k = "resp"
         if k in ("connect", "send", "proxy_connect", "tls", "checkout"):
             # an outcome that can no longer happen for this attempt (connection reused, no proxy ...): treat as 200
             self.log[-1]["not_applicable"] = True
